@@ -38,7 +38,9 @@ ASSUMPTIONS = [
 TECHNIQUE = "relational runtime monitor: equivalent transform spellings must give identical public outputs; bounded space enumerated"
 DESIGN_REF = "DESIGN.md 4 C19"
 EXHAUSTIVE = {"quick": True, "thorough": False}
-REQUIRED_REACH = ["spelling_equivalence", "stale_ignored", "reuse", "class:slot=hide",
+REQUIRED_REACH = ["spelling_equivalence", "stale_ignored", "reuse", "mixed_spellings",
+                  "class:mixed=alias+subvar_id", "class:mixed=alias+elem_id_int",
+                  "class:mixed=elem_id_str+alias", "class:slot=hide",
                   "class:slot=rename", "class:slot=explicit", "class:slot=fixed_top",
                   "class:slot=opposing", "class:slot=derived_insertion", "class:kind=mr",
                   "class:kind=ca_items", "class:kind=numarr", "class:kind=datetime",
@@ -238,10 +240,65 @@ def check_case(case):
                     if isinstance(v["detail"], dict):
                         v["detail"] = dict(v["detail"], item=j, ref=repr(ref),
                                            spellings=repr(spell[j])[:300])
+        # ---- several references in one transform, each spelled its own way -------------------
+        if slot in MIXED_SLOTS and len(items) >= 2:
+            _mixed(res, spec, slot, key, spell, j, items, kind)
         # ---- stale / malformed references change nothing and raise nothing ------------------
         if j == items[0]:  # once per case is enough
             _stale(res, spec, slot, key, okey, ref_alias, trA, pA.value, kind, measure)
     return res
+
+
+MIXED_SLOTS = ("hide", "rename", "explicit", "fixed_top", "fixed_bottom")
+
+
+def _mixed_transform(slot, key, ra, rb):
+    def k(r):
+        return r if isinstance(r, str) else str(r)
+
+    if slot == "hide":
+        return {key: {"elements": {k(ra): {"hide": True}, k(rb): {"name": "RENAMED"}}}}
+    if slot == "rename":
+        return {key: {"elements": {k(ra): {"name": "RENAMED"}, k(rb): {"hide": True}}}}
+    if slot == "explicit":
+        return {key: {"order": {"type": "explicit", "element_ids": [ra, rb]}}}
+    if slot == "fixed_top":
+        return {key: {"order": {"type": "label", "direction": "ascending",
+                                "fixed": {"top": [ra, rb]}}}}
+    return {key: {"order": {"type": "label", "fixed": {"bottom": [ra, rb]}}}}
+
+
+def _mixed(res, spec, slot, key, spell, a, items, kind):
+    """Item `a` first, another item second, in ONE transform: every pair of spellings must give
+    what the all-alias pair gives (a client may mix spellings; nothing says one object is
+    written in one spelling)."""
+    ia = items.index(a)
+    for b in sorted({items[(ia + 1) % len(items)], items[ia - 1]} - {a}):  # its two neighbours
+        trA = _mixed_transform(slot, key, spell[a]["alias"], spell[b]["alias"])
+        cubeA, _ = _cube(spec, trA)
+        pA = read(cubeA, "partitions")
+        if not pA.ok:
+            res.skipped["mixed_alias_baseline_raises"] += 1
+            continue
+        for na, ra in spell[a].items():
+            for nb, rb in spell[b].items():
+                if na == "alias" and nb == "alias":
+                    continue
+                trS = _mixed_transform(slot, key, ra, rb)
+                cubeS, _ = _cube(spec, trS)
+                pS = read(cubeS, "partitions")
+                if not res.check("mixed_spellings", pS.ok,
+                                 "exception/mixed/%s/%s" % (kind, slot),
+                                 {"exc": repr(pS.exc), "transforms": trS}):
+                    continue
+                res.classes.append("mixed=%s+%s" % (na, nb))
+                before = len(res.violations)
+                for x, y in zip(pS.value, pA.value):
+                    partcmp.compare_partitions(res, x, y, "mixed_spellings",
+                                               "mixed/%s/%s/%s+%s" % (kind, slot, na, nb))
+                for v in res.violations[before:]:
+                    if isinstance(v["detail"], dict):
+                        v["detail"] = dict(v["detail"], transforms=repr(trS)[:300])
 
 
 def _with_stale(slot, key, okey, tr, stale):
